@@ -243,6 +243,26 @@ func runStepSweep(c *Ctx, prop string) {
 				st := RandStates(r)
 				var trail []string
 				for k := 0; k < chainLen; k++ {
+					if k > 0 && r.Intn(10) == 0 && rig.CPU != nil {
+						// the same CPU object accepts a request here (NMI, or mode 1 with IFF1 set):
+						// whatever book-keeping an implementation attaches to acceptance is now
+						// armed on this object while the chain goes on (RETN/RETI/EI/DI come by)
+						rig.CPU.States = st
+						rig.CPU.HALT = false
+						if r.Bool() {
+							rig.CPU.Interrupt = z80.NMIInterrupt()
+						} else {
+							rig.CPU.States.IM, rig.CPU.States.IFF1 = 1, true
+							rig.CPU.Interrupt = z80.IM1Interrupt()
+						}
+						func() {
+							defer func() { recover() }()
+							rig.CPU.Step()
+						}()
+						rig.CPU.Interrupt = nil
+						st = rig.CPU.States
+						trail = append(trail, "<request accepted>")
+					}
 					enc := encs[r.Intn(len(encs))]
 					sc := MakeStepCase(enc, r, r.Intn(1<<16))
 					f := st.AF.Lo
@@ -390,7 +410,7 @@ func runStepSweep(c *Ctx, prop string) {
 	}
 	switch prop {
 	case "C01":
-		c.R.Set("rule", "every implemented encoding (930, all seven decode tables) x n boundary-biased pre-states (F and displacement cycled through all 256 values, PC straddling FFFF in ~1/8, pointers at/near 0000/FFFF/PC/SP), pseudo-random memory and device bytes, the halted indication already true in 1/16 of cases, no RETN/RETI handler registered in 1/4 of cases, a refused maskable request pending (IFF1 clear) in 1/16 of cases, a request raised by a memory/port callback DURING the instruction in 1/16 of cases (the Step is the instruction's, unchanged; the request stays pending), 1/8 of cases also executed on z80.DumbMemory / a fully populated z80.MapMemory handed to the CPU directly (outcome must not depend on the memory's type); one emulator Step vs one reference-model Step; a pass where the upper part of the address space keeps no write - reading 0 (a z80.DumbMemory of length 1, 2, 20h, 100h, 4000h, 8000h, FFFEh, FFFFh, also handed over directly) or holding bytes (ROM from 2000h/8000h/C000h) - with PC and pointers pulled to the border; plus chains of 48 random implemented instructions executed by ONE CPU object on an instruction tape (post-state of a Step = pre-state of the next) to expose state leaking between consecutive operations (every ~6th Step continues on a by-value copy of the CPU struct while the old struct is scribbled over); compared: all registers, F under the tolerance mask, I, IFF1/2, IM, HALT, full memory image, bytes sent to ports. A case is non-trivial when the Step changed a register other than PC/R, wrote memory, or touched a port or data byte; distinct = distinct (encoding, case index, pre-state, device seed) hashes among the non-trivial ones (sampled 1/7 beyond the first 4096 per encoding, exact set capped at 6M: a lower bound)")
+		c.R.Set("rule", "every implemented encoding (930, all seven decode tables) x n boundary-biased pre-states (F and displacement cycled through all 256 values, PC straddling FFFF in ~1/8, pointers at/near 0000/FFFF/PC/SP), pseudo-random memory and device bytes, the halted indication already true in 1/16 of cases, no RETN/RETI handler registered in 1/4 of cases, a refused maskable request pending (IFF1 clear) in 1/16 of cases, a request raised by a memory/port callback DURING the instruction in 1/16 of cases (the Step is the instruction's, unchanged; the request stays pending), 1/8 of cases also executed on z80.DumbMemory / a fully populated z80.MapMemory handed to the CPU directly (outcome must not depend on the memory's type); one emulator Step vs one reference-model Step; a pass where the upper part of the address space keeps no write - reading 0 (a z80.DumbMemory of length 1, 2, 20h, 100h, 4000h, 8000h, FFFEh, FFFFh, also handed over directly) or holding bytes (ROM from 2000h/8000h/C000h) - with PC and pointers pulled to the border; plus chains of 48 random implemented instructions executed by ONE CPU object on an instruction tape (post-state of a Step = pre-state of the next) to expose state leaking between consecutive operations (every ~6th Step continues on a by-value copy of the CPU struct while the old struct is scribbled over; every ~10th position the same object first accepts an NMI or a mode-1 request); compared: all registers, F under the tolerance mask, I, IFF1/2, IM, HALT, full memory image, bytes sent to ports. A case is non-trivial when the Step changed a register other than PC/R, wrote memory, or touched a port or data byte; distinct = distinct (encoding, case index, pre-state, device seed) hashes among the non-trivial ones (sampled 1/7 beyond the first 4096 per encoding, exact set capped at 6M: a lower bound)")
 	case "C05":
 		c.R.Set("rule", "same workload as C01 (incl. the pass with no I/O device attached: memory traffic must be unchanged); compared per Step: multiset of memory reads (addr,value), multiset of memory writes (addr,value) and the ordered port log (direction, port, value) of the emulator against the reference model's bus log; non-trivial/distinct as in C01")
 	}
